@@ -200,6 +200,21 @@ def pair_keys_rule(ctx: Ctx, rule: str) -> int:
 
 
 
+def _mentions_kind(f: Func, test: ast.AST, kind: str) -> bool:
+    """the test names the parameter kind, directly or through a boolean local (`is_var_positional = p.kind == Parameter.VAR_POSITIONAL`)"""
+    for x in ast.walk(test):
+        if isinstance(x, ast.Attribute) and x.attr == kind:
+            return True
+        if isinstance(x, ast.Name) and isinstance(x.ctx, ast.Load):
+            for st in f.own_nodes():
+                if isinstance(st, (ast.Assign, ast.AnnAssign)) and st.value is not None:
+                    tg = st.targets[0] if isinstance(st, ast.Assign) else st.target
+                    if isinstance(tg, ast.Name) and tg.id == x.id and isinstance(st.value, (ast.Compare, ast.BoolOp, ast.UnaryOp)) \
+                            and any(isinstance(y, ast.Attribute) and y.attr == kind for y in ast.walk(st.value)):
+                        return True
+    return False
+
+
 def star_args_bound_whole(ctx: Ctx, rule: str) -> int:
     """A binder that accepts `*args` parameters (its refusal test on the parameter kind lets Parameter.VAR_POSITIONAL through) binds to such a
     parameter ALL the remaining positional arguments: under a test on VAR_POSITIONAL it consumes the slice `<positional>[idx:]`.  Binding
@@ -230,6 +245,13 @@ def star_args_bound_whole(ctx: Ctx, rule: str) -> int:
                     if v_ is not None:
                         sets_ += kind_sets(ast.walk(v_))
         sets_ = [s_ for s_ in sets_ if "POSITIONAL_OR_KEYWORD" in s_]
+        if not sets_:
+            # the kinds may be tested one by one (`is_plain = p.kind == Parameter.POSITIONAL_OR_KEYWORD` ... `if not (is_plain or is_var_keyword or ..): raise`)
+            one_by_one = {y.comparators[0].attr for y in ast.walk(loop) if isinstance(y, ast.Compare) and len(y.ops) == 1 and isinstance(y.ops[0], (ast.Eq, ast.Is))
+                          and isinstance(y.left, ast.Attribute) and y.left.attr == "kind" and isinstance(y.comparators[0], ast.Attribute)
+                          and unparse(y.comparators[0].value).split(".")[-1] == "Parameter"}
+            if "POSITIONAL_OR_KEYWORD" in one_by_one:
+                sets_ = [one_by_one]
         accepted = set().union(*sets_) if sets_ else None
         if accepted is None:
             continue
@@ -240,7 +262,7 @@ def star_args_bound_whole(ctx: Ctx, rule: str) -> int:
             continue
         ok_site = None
         for st in ast.walk(loop):
-            if isinstance(st, ast.If) and any(isinstance(x, ast.Attribute) and x.attr == "VAR_POSITIONAL" for x in ast.walk(st.test)):
+            if isinstance(st, ast.If) and _mentions_kind(f, st.test, "VAR_POSITIONAL"):
                 for y in ast.walk(ast.Module(body=st.body, type_ignores=[])):
                     if isinstance(y, ast.Subscript) and isinstance(y.slice, ast.Slice) and y.slice.upper is None and isinstance(y.value, ast.Name) and y.value.id == pos \
                             and y.slice.lower is not None and idx_var and any(isinstance(z, ast.Name) and z.id == idx_var for z in ast.walk(y.slice.lower)):
@@ -250,7 +272,7 @@ def star_args_bound_whole(ctx: Ctx, rule: str) -> int:
             # ... and the binding is a constant only when EVERY one of these arguments is: abstract evaluation of the expression that chooses between "no hash" and the hash
             # of the collected hashes, on sample collections (one unknown among known ones -> no hash)
             for st in ast.walk(loop):
-                if not (isinstance(st, ast.If) and any(isinstance(x, ast.Attribute) and x.attr == "VAR_POSITIONAL" for x in ast.walk(st.test))):
+                if not (isinstance(st, ast.If) and _mentions_kind(f, st.test, "VAR_POSITIONAL")):
                     continue
                 for asg in [y for y in ast.walk(ast.Module(body=st.body, type_ignores=[])) if isinstance(y, ast.Assign) and isinstance(y.value, ast.IfExp)]:
                     hashed = [y for y in ast.walk(asg.value) if isinstance(y, ast.Call) and (prog.dotted(f, y.func) or "").endswith("dds_hash") and y.args and isinstance(y.args[0], ast.Name)]
@@ -911,7 +933,8 @@ def _precedence(ctx: Ctx, f: Func, loop: ast.For) -> Tuple[str, List[str]]:
                     if ks <= {"KEYWORD_ONLY", "VAR_KEYWORD", "VAR_POSITIONAL"}:
                         # a kind that is not given by position at its index (keyword-only, *args, **kwargs): not the ordinary parameter the precedence is about
                         return "kwonly" if positive else "!kwonly"
-                    if ks & {"POSITIONAL_ONLY", "POSITIONAL_OR_KEYWORD"} and "KEYWORD_ONLY" not in ks and ks >= {"POSITIONAL_ONLY", "POSITIONAL_OR_KEYWORD"}:
+                    if ks <= {"POSITIONAL_ONLY", "POSITIONAL_OR_KEYWORD"}:
+                        # the ordinary kinds: the world of the precedence rule is a parameter of such a kind
                         return "!kwonly" if positive else "kwonly"
         return None
     # sites
